@@ -426,21 +426,22 @@ Qed.
 End Proofs.
 
 (* ---- statements over runs from the harness's initial server ---- *)
-Lemma HInv_init : HInv hinit.
+(* a server that has just started: distinct (service, object) keys, nothing queued, nobody connected *)
+Definition hstart (st0 : hstate) : Prop := HInv st0 /\ keys_distinct st0.
+Lemma hstart_init id2 : id2 <> 1 -> hstart (hinit_of id2).
 Proof.
-  split; cbn.
+  intro Hn. split; [split; cbn|].
   - constructor.
   - repeat constructor; cbn; unfold MailboxCap; lia.
   - intros c x o f H. destruct c; discriminate.
+  - unfold keys_distinct. cbn. repeat constructor; cbn; intuition (try discriminate). injection H0 as E. congruence.
 Qed.
-Lemma keys_init : keys_distinct hinit.
-Proof. unfold keys_distinct. cbn. repeat constructor; cbn; intuition discriminate. Qed.
 
-Theorem c12_safe cls g tr st : hclean g -> hrun cls g hinit tr = Some st -> HInv st.
-Proof. intros Hc H. exact (proj1 (run_inv cls g Hc hinit tr st HInv_init H)). Qed.
+Theorem c12_safe cls g st0 tr st : hclean g -> hstart st0 -> hrun cls g st0 tr = Some st -> HInv st.
+Proof. intros Hc [H0 _] H. exact (proj1 (run_inv cls g Hc st0 tr st H0 H)). Qed.
 
-Theorem c12_probe cls g tr st o x pl oid sg u :
-  hclean g -> hrun cls g hinit tr = Some st ->
+Theorem c12_probe cls g st0 tr st o x pl oid sg u :
+  hclean g -> hstart st0 -> hrun cls g st0 tr = Some st ->
   nth_error (objs st) o = Some x -> o_kind x <> KAuth ->
   cls (o_kind x) A_metaObject pl = PArgs oid sg u -> (oid = 0 \/ oid = o_id x) ->
   (List.length (probe_sched st o x pl) <= MailboxCap + 5)%nat /\
@@ -448,8 +449,8 @@ Theorem c12_probe cls g tr st o x pl oid sg u :
    (exists st1 x1, hrun cls g st (repeat (LObj o) (List.length (o_mb x))) = Some st1 /\ nth_error (objs st1) o = Some x1 /\
                    o_alive x1 = false)).
 Proof.
-  intros Hc H. destruct (run_inv cls g Hc hinit tr st HInv_init H) as [I K].
-  apply probe_answered_bounded; try assumption. eapply keys_distinct_okeys; [exact K|exact keys_init].
+  intros Hc [H0 K0] H. destruct (run_inv cls g Hc st0 tr st H0 H) as [I K].
+  apply probe_answered_bounded; try assumption. eapply keys_distinct_okeys; [exact K|exact K0].
 Qed.
 
 (* an object stops being alive only by executing a terminate request that names it *)
